@@ -53,5 +53,6 @@ instance : KOps Float where
   sin32 a := (Float32.sin a.toFloat32).toFloat
   cos32 a := (Float32.cos a.toFloat32).toFloat
   isFinite := Float.isFinite
+  satU64 n := if n < 18446744073709551615 then n else 18446744073709551615
 
 end K
